@@ -17,6 +17,7 @@ mod c10;
 mod c11;
 mod c12;
 mod c13;
+mod c14;
 mod c15;
 mod c16;
 mod c17;
@@ -235,6 +236,7 @@ fn main() {
         "C11" => { c11::run(&mut ctx); true }
         "C12" => { c12::run(&mut ctx); true }
         "C13" => { c13::run(&mut ctx); true }
+        "C14" => { c14::run(&mut ctx); true }
         "C15" => { c15::run(&mut ctx); true }
         "C16" => { c16::run(&mut ctx); true }
         "C17" => { c17::run(&mut ctx); true }
